@@ -13,7 +13,11 @@ Regenerated on every run of ``./check C43`` from the CURRENT source text.  What 
     - the names of all other functions of the class (``other_attrs``).
 * every class in ``compositional/materials.py`` with an ``SI_units`` class attribute:
   ``SI_units: ClassVar[...] = {..} | dict({..}) | dict(k="..") | dict(**Other.SI_units)``,
-  optionally followed by ``SI_units.update({..})`` statements in the class body.
+  optionally followed by ``SI_units.update({..})`` statements in the class body;
+  and the dataclass FIELDS of each such class with their defaults (``<name>: <ann> =
+  <number>``; inherited fields first; the utility fields of the base class are the names
+  removed by ``constants.pop("<name>")`` in ``Constants.__post_init__``; a class with an
+  SI_units table must be decorated with ``@dataclass(...)``).
 
 Any other AST shape raises ``TranslateError`` (the check reports a broken tie).
 """
@@ -299,8 +303,79 @@ def translate_materials(path):
     return tables
 
 
+def translate_material_fields(path, tables):
+    """Dataclass fields (name, default) of every class that has an SI_units table."""
+    fn = os.path.basename(path)
+    tree = ast.parse(open(path).read(), filename=path)
+    classes = {c.name: c for c in tree.body if isinstance(c, ast.ClassDef)}
+    # utility fields: popped in Constants.__post_init__
+    utility = []
+    base = classes.get("Constants")
+    if base is None:
+        raise TranslateError(f"{fn}: class Constants not found")
+    post = [f for f in base.body if isinstance(f, ast.FunctionDef) and f.name == "__post_init__"]
+    if len(post) != 1:
+        raise TranslateError(f"{fn}: Constants.__post_init__ not found")
+    for node in ast.walk(post[0]):
+        if (isinstance(node, ast.Call) and isinstance(node.func, ast.Attribute)
+                and node.func.attr == "pop" and isinstance(node.func.value, ast.Name)
+                and node.func.value.id == "constants"):
+            if not (len(node.args) == 1 and isinstance(node.args[0], ast.Constant)
+                    and isinstance(node.args[0].value, str)):
+                _fail(node, "constants.pop(...) with a non-literal argument", fn)
+            utility.append(node.args[0].value)
+    if not utility:
+        raise TranslateError(f"{fn}: no constants.pop(...) in Constants.__post_init__")
+
+    def is_dataclass(cls):
+        for d in cls.decorator_list:
+            f = d.func if isinstance(d, ast.Call) else d
+            if isinstance(f, ast.Name) and f.id == "dataclass":
+                return True
+            if isinstance(f, ast.Attribute) and f.attr == "dataclass":
+                return True
+        return False
+
+    memo = {}
+
+    def fields_of(name, stack):
+        if name in memo:
+            return memo[name]
+        if name in stack:
+            raise TranslateError(f"{fn}: cyclic inheritance via {name}")
+        cls = classes[name]
+        out = []
+        # dataclass field order: fields of the bases in reverse MRO, then own fields
+        for b in reversed(cls.bases):
+            if isinstance(b, ast.Name) and b.id in classes:
+                if b.id in tables or b.id == "Constants":
+                    out = _merge(out, fields_of(b.id, stack + [name]))
+            elif isinstance(b, ast.Name):
+                continue  # imported, non-dataclass mixin (checked by the tie)
+            else:
+                _fail(cls, f"unrecognised base class expression of {name}", fn)
+        if not is_dataclass(cls):
+            raise TranslateError(f"{fn}: class {name} has an SI_units table but is not "
+                                 "decorated with @dataclass")
+        for st in cls.body:
+            if not isinstance(st, ast.AnnAssign) or not isinstance(st.target, ast.Name):
+                continue
+            fname = st.target.id
+            if "ClassVar" in ast.unparse(st.annotation):
+                continue
+            if fname in utility:
+                continue
+            if st.value is None:
+                _fail(st, f"field {name}.{fname} has no default", fn)
+            out = _merge(out, [(fname, _number(st.value, fn))])
+        memo[name] = out
+        return out
+
+    return {name: fields_of(name, []) for name in tables}, utility
+
+
 # --------------------------------------------------------------------------------------
-def render(bases, derived, others, tables, src_units, src_mat):
+def render(bases, derived, others, tables, src_units, src_mat, fields=None):
     L = []
     L.append("(* GENERATED on every run by harness/translator/units_tables.py from")
     L.append(f"     {src_units}")
@@ -332,6 +407,15 @@ def render(bases, derived, others, tables, src_units, src_mat):
         rows.append(f"({_cstr(cname)},\n     [{ent}])")
     L.append("  [" + ";\n   ".join(rows) + "].")
     L.append("")
+    if fields is not None:
+        L.append("(* dataclass fields (with defaults) of the material constants classes *)")
+        L.append("Definition class_fields : list (string * list (string * Q)) :=")
+        rows = []
+        for cname, fl in fields.items():
+            ent = ";\n      ".join(f"({_cstr(k)}, {_cq(v)})" for k, v in fl)
+            rows.append(f"({_cstr(cname)},\n     [{ent}])")
+        L.append("  [" + ";\n   ".join(rows) + "].")
+        L.append("")
     return "\n".join(L)
 
 
@@ -340,7 +424,8 @@ def generate(repo, out_path):
     src_mat = os.path.join(repo, "src", "porepy", "compositional", "materials.py")
     bases, derived, others = translate_units(src_units)
     tables = translate_materials(src_mat)
-    text = render(bases, derived, others, tables, src_units, src_mat)
+    fields, utility = translate_material_fields(src_mat, tables)
+    text = render(bases, derived, others, tables, src_units, src_mat, fields)
     os.makedirs(os.path.dirname(out_path), exist_ok=True)
     old = open(out_path).read() if os.path.exists(out_path) else None
     if old != text:
@@ -348,7 +433,8 @@ def generate(repo, out_path):
         with open(tmp, "w") as f:
             f.write(text)
         os.replace(tmp, out_path)
-    return {"bases": bases, "derived": derived, "others": others, "tables": tables}
+    return {"bases": bases, "derived": derived, "others": others, "tables": tables,
+            "fields": fields, "utility": utility}
 
 
 if __name__ == "__main__":
